@@ -7,6 +7,7 @@ mod refstf;
 mod refvm;
 mod report;
 mod loomrun;
+mod sched;
 mod stf;
 mod vmrun;
 mod world;
